@@ -1,4 +1,5 @@
 import SgVerif.C35.Model
+import SgVerif.C35.Modes
 import SgVerif.Common.Proto
 open SgVerif.Proto
 namespace SgVerif.C35
@@ -92,6 +93,35 @@ def judge (fixed : Bool) (q a : List String) : Verdict :=
         else cmpAns model a
       | _, _ => .bad
     | _, _ => .bad
+  | "E2" :: mode :: ns :: nr :: rest =>
+    -- end-to-end transfer (e2e.cpp): E2 <e|b|r> <nSend> <nRecv> | <send buffer kind> | <receive buffer kind> | (x src dst)* => (dst after)*
+    match ns.toNat?, nr.toNat?, splitBar rest, a.mapM String.toNat? with
+    | some ns, some nr, [_, sp, dp, sm], some after =>
+      match parseKind sp, parseKind dp, sm.mapM String.toNat? with
+      | some sk, some dk, some nums =>
+        let rec triples : List Nat → List (Nat × Nat × Nat)
+          | x :: sv :: dv :: r => (x, sv, dv) :: triples r
+          | _ => []
+        let tr := triples nums
+        let m : Mode := if mode = "e" then .eager else if mode = "b" then .detached else .rendezvous
+        let look (sel : Nat × Nat × Nat → Nat) : Buf := fun x => match tr.find? (fun t => t.1 == x) with | some t => sel t | none => 0
+        let src := look (fun t => t.2.1)
+        let dst := look (fun t => t.2.2)
+        let n := Nat.min ns nr
+        let pairs := tr.zip after
+        -- monitor = the property: a byte of the transferred part that is private on both sides holds the sender's byte
+        let bad := pairs.filter (fun p => p.1.1 < n && privateIn sk p.1.1 && privateIn dk p.1.1 && p.2 != p.1.2.1)
+        if tr.length != after.length then .bad
+        else if ¬ bad.isEmpty then
+          .monfail s!"key=e2e-private-byte-not-transferred mode {mode}: bytes {bad.map (·.1.1) |>.take 5} private on both sides differ from the sender's"
+        else
+          -- model of the mode: which buffer the callback saw (compared on the receiver's private bytes only)
+          let dis := pairs.filter (fun p => privateIn dk p.1.1 &&
+            transfer m sk dk ns nr false src src dst (fun _ => 0) p.1.1 != p.2)
+          if dis.isEmpty then .ok
+          else .disagree s!"mode {mode}: bytes {dis.map (·.1.1) |>.take 5}: model {dis.map (fun p => transfer m sk dk ns nr false src src dst (fun _ => 0) p.1.1) |>.take 5} library {dis.map (·.2) |>.take 5}"
+      | _, _, _ => .bad
+    | _, _, _, _ => .bad
   | _ => .bad
 
 end SgVerif.C35
